@@ -84,6 +84,8 @@ def drv_cfg(cid):
 
 def signature(r):
     ev = r["event"]
+    if ev.get("ev") == "Died":
+        return "Died:%s:%s" % (str(ev.get("kind")).split("[")[0].strip()[:50], ev.get("frame"))
     obs = ev.get("obs", {})
     tr = r["trace"][:r["line"]]
     kinds = "+".join(sorted(set(e["ev"] for e in tr if e["ev"] in ("StartPs", "AddCust", "PullOk", "PullFail", "StartPull", "Kick"))))
